@@ -717,9 +717,10 @@ func (s *Sim) opDumpLoad(op *Op) {
 	})
 	for _, h := range handles {
 		a, b := s.W.Alive(h), w2.Alive(h)
-		if !a && b {
-			// (C02 counts dump/load among the histories: a removed handle is never alive again)
-			s.violate("C02", "pool.alive", "after_load", false, "handle %v was removed before the dump and is alive in the world that loaded it", h)
+		if a != b {
+			// (C02 counts dump/load among the histories: a removed handle is never alive again,
+			// a handle that was not removed stays alive)
+			s.violate("C02", "pool.alive", "after_load", false, "handle %v: alive=%v when the world was dumped, %v in the world that loaded the dump", h, a, b)
 		}
 		if a != b {
 			s.violate("C17", "dump.alive", "mismatch", false, "handle %v: alive=%v in the source world, %v after loading the dump", h, a, b)
@@ -766,6 +767,7 @@ func (s *Sim) opDumpLoad(op *Op) {
 	for _, h := range handles {
 		a, b := s.W.Alive(h), w3.Alive(h)
 		if a != b {
+			s.violate("C02", "pool.alive", "after_second_load", false, "handle %v: alive=%v when the world was dumped, %v in a world that loaded the same dump later", h, a, b)
 			s.violate("C17", "dump.alive", "second_load", false, "handle %v: alive=%v in the source world, %v after loading the same dump again (another world that had loaded it removed entities in between)", h, a, b)
 			return
 		}
